@@ -546,34 +546,32 @@ pub(crate) fn parse_const(c: &ItemConst) -> Result<RustItem, ParseError> {
 }
 
 fn parse_const_expr(e: &Expr) -> Result<RustConstExpr, ParseError> {
-    struct ExprLitVisitor(pub Option<Result<RustConstExpr, ParseError>>);
-    impl Visit<'_> for ExprLitVisitor {
-        fn visit_expr_lit(&mut self, el: &ExprLit) {
-            if self.0.is_some() {
-                // should we throw an error instead of silently ignoring a second literal?
-                // or would this create false positives?
-                return;
-            }
-            let check_literal_type = || {
-                Ok(match &el.lit {
-                    Lit::Int(lit_int) => {
-                        let int: i128 = lit_int
-                            .base10_parse()
-                            .map_err(|_| ParseError::RustConstTypeInvalid)?;
-                        RustConstExpr::Int(int)
-                    }
-                    _ => return Err(ParseError::RustConstTypeInvalid),
-                })
-            };
-
-            self.0.replace(check_literal_type());
+    // Only an integer literal (optionally negated or parenthesised) is a supported
+    // constant value. Anything else (`1 + 2`, `4 * KB`, a path, a call) has to be
+    // rejected rather than reduced to the first literal found inside of it.
+    match e {
+        Expr::Lit(ExprLit {
+            lit: Lit::Int(lit_int),
+            ..
+        }) => {
+            let int: i128 = lit_int
+                .base10_parse()
+                .map_err(|_| ParseError::RustConstTypeInvalid)?;
+            Ok(RustConstExpr::Int(int))
         }
+        Expr::Lit(_) => Err(ParseError::RustConstTypeInvalid),
+        Expr::Unary(syn::ExprUnary {
+            op: syn::UnOp::Neg(_),
+            expr,
+            ..
+        }) => match parse_const_expr(expr)? {
+            RustConstExpr::Int(int) => Ok(RustConstExpr::Int(-int)),
+        },
+        Expr::Paren(syn::ExprParen { expr, .. }) | Expr::Group(syn::ExprGroup { expr, .. }) => {
+            parse_const_expr(expr)
+        }
+        _ => Err(ParseError::RustConstExprInvalid),
     }
-    let mut expr_visitor = ExprLitVisitor(None);
-    syn::visit::visit_expr(&mut expr_visitor, e);
-    expr_visitor
-        .0
-        .unwrap_or(Err(ParseError::RustConstTypeInvalid))
 }
 
 // Helpers
